@@ -838,6 +838,19 @@ func mergeCases(in []valCase) []valCase {
 
 // checkCases: the alternatives of a value must be exactly the expected (formula, condition) pairs.
 func checkCases(c *Ctx, R, key string, pos token.Pos, cases []valCase, specs []edgeSpec) {
+	checkCasesUnder(c, R, key, pos, cases, specs, nil)
+}
+
+// checkCasesUnder: like checkCases, with the alternatives compared on the domain `dom` only (both the
+// found and the expected condition are taken in conjunction with it).
+func checkCasesUnder(c *Ctx, R, key string, pos token.Pos, cases []valCase, specs []edgeSpec, dom *Cond) {
+	if dom != nil {
+		cs2 := make([]valCase, len(cases))
+		for i, cs := range cases {
+			cs2[i] = valCase{cs.val, cAnd(dom, cs.cond)}
+		}
+		cases = mergeCases(cs2)
+	}
 	used := make([]bool, len(cases))
 	for si, sp := range specs {
 		ok := false
@@ -851,11 +864,15 @@ func checkCases(c *Ctx, R, key string, pos token.Pos, cases []valCase, specs []e
 				ok = true
 				continue
 			}
-			eq, w := CondEquivalent(cs.cond, MustRefCond(sp.cond))
+			want := MustRefCond(sp.cond)
+			if dom != nil {
+				want = cAnd(dom, want)
+			}
+			eq, w := CondEquivalent(cs.cond, want)
 			if eq {
 				ok = true
 			} else {
-				why = fmt.Sprintf("value %s arises under %s, expected under %s (differs at %s)", cs.val, cs.cond, MustRefCond(sp.cond), w)
+				why = fmt.Sprintf("value %s arises under %s, expected under %s (differs at %s)", cs.val, cs.cond, want, w)
 			}
 		}
 		c.Check(R, fmt.Sprintf("%s/case%d", key, si), pos, ok, fmt.Sprintf("%s when %s", sp.val, sp.cond), map[bool]string{true: "ok", false: why}[ok])
